@@ -146,6 +146,7 @@ class Obs:
         self.timeout = False
         self.real_results_left: Any = None
         self.started_after_raise: list = []
+        self.corrupt: list = []
         self.second = None
         self.cached_mid: dict = {}
         self.readable_after: list = []
@@ -208,6 +209,20 @@ def execute_case(spec: dict, *, chooser: Optional[Chooser] = None, gated: bool =
                 task._lt.cache.save(pre_lab._storage, task, TaskResult(value=pv[nid], meta=PRE_META))
                 model[nid] = pv[nid]
         obs.model_before = model
+        # entries that exist but cannot be loaded (what an earlier killed save leaves behind): truncate the result file
+        obs.corrupt = []
+        if model and spec.get('pre_corrupt') and lab_spec.get('storage', 'local') == 'local':
+            for nid in spec['pre_corrupt']:
+                if nid not in model:
+                    continue
+                kd = os.path.join(d, 'store', built.shared[nid].cache_key)
+                for fn in ('data.pickle', 'part1.bin'):
+                    fp = os.path.join(kd, fn)
+                    if os.path.exists(fp):
+                        with open(fp, 'r+b') as fh:
+                            fh.truncate(max(1, os.path.getsize(fp) // 2))
+                        obs.corrupt.append(nid)
+                        break
         if gated:
             with open(os.path.join(obs_dir, 'gated'), 'w'):
                 pass
